@@ -411,7 +411,14 @@ func (w *World) cookieId(v string) int {
 	if err != nil {
 		return -1
 	}
-	return idxOf(w.rmHash, hash512(string(raw)))
+	if id := idxOf(w.rmHash, hash512(string(raw))); id >= 1 {
+		return id
+	}
+	// unknown: -2 when it is shaped like a token (pid;32-byte nonce) and so reaches the storage lookup
+	if i := len(raw) - 33; i >= 0 && raw[i] == ';' {
+		return -2
+	}
+	return -1
 }
 
 // Project maps the real world to the spec's observable state.
